@@ -916,6 +916,16 @@ func (f *fn) call(x *ast.CallExpr) ex {
 			}
 			// function of the same package that is a target
 			if tg := findTarget(f.p.dir, "", name); tg != nil {
+				if tg == f.tg && tg.SelfAs != "" {
+					// open recursion: the function's call of itself is a call of a parameter
+					codes, _, _ := f.args(x.Args)
+					f.uses[tg.SelfAs] = true
+					rt := ty{"Unit", "unit"}
+					if f.resKind != "error" {
+						rt = ty{f.resLean, "self"}
+					}
+					return impure("("+tg.SelfAs+" "+strings.Join(codes, " ")+")", rt)
+				}
 				return f.callTarget(tg, nil, x.Args, x.Pos())
 			}
 			// a function that is not translated but stands for a parameter of the generated code
@@ -2362,6 +2372,9 @@ func main() {
 	}
 	for _, gf := range genFiles {
 		b := texts[gf.Name]
+		if gf.Postlude != "" && !strings.Contains(b.String(), "-- MISSING") {
+			b.WriteString(gf.Postlude + "\n")
+		}
 		b.WriteString("end Ucan.Gen\n")
 		path := filepath.Join(outDir, gf.Name+".lean")
 		if old, err := os.ReadFile(path); err == nil && string(old) == b.String() {
